@@ -140,8 +140,7 @@ def gen_ffi_op(r, n, tier):
             yield f"ffi op {op} {scen}"
         for scen in ("timeout", "badresp", "badframe", "ioerr", "disabled", "refused", "destroy", "rtdrop"):
             yield f"ffi op {op} {scen}"
-        if tier == "thorough" or op in ("rc", "wR"):
-            yield f"ffi op {op} qfull"
+        yield f"ffi op {op} qfull"
     # every exception code through a scripted peer
     for op in OPS:
         codes = range(256) if tier == "thorough" else list(range(0, 13)) + [127, 128, 129, 200, 254, 255]
